@@ -4,7 +4,7 @@ import random
 import world_check as wk
 import world_common as wc
 
-MON = ["bursts", "writes_queued", "faithful", "store_immutable", "queue_form", "fault_reported", "no_error"]
+MON = ["bursts", "failed_pass_keeps_queue", "writes_queued", "faithful", "store_immutable", "queue_form", "fault_reported", "no_error"]
 
 
 def main(rep):
